@@ -295,6 +295,8 @@ where
         if settled {
             self.send_transfer_without_modifying_unsettled_map(writer, transfer, payload)
                 .await?;
+            #[cfg(fe2o3_amqp_verif)]
+            crate::verif::sched_point("sender.send.after_transfer_queued").await;
             return Ok(Settlement::Settled(delivery_tag));
         }
 
@@ -324,6 +326,8 @@ where
         self.send_transfer_without_modifying_unsettled_map(writer, transfer, payload)
             .await?;
         registered.delivery_tag = None;
+        #[cfg(fe2o3_amqp_verif)]
+        crate::verif::sched_point("sender.send.after_transfer_queued").await;
 
         Ok(Settlement::Unsettled {
             delivery_tag,
